@@ -11,7 +11,7 @@ histories of **any** length:
   violation `translate_three_frames_not_rect` of the one excluded case);
 * `step_names_nodup` / `run_names_nodup` — names stay pairwise distinct unless the caller edits names;
 * `step_refines` / `run_refines` — refinement to the plain-list reference model `Gv.Spec.stepOp`, for
-  all 24 operations of the history language;
+  all 25 operations of the history language;
 * `lookup_paths_agree`, `idByName_spec`, `byName_found_iff`, `obs_*` — the access paths agree;
 * `add_wrong_length_rejected` — a sequence of the wrong length is rejected, state unchanged.
 
@@ -98,6 +98,7 @@ theorem step_inv (b : Bag) (h : Inv b) (op : Op) (hw : OpWF b op) : Inv (stepOp 
       · rename_i r hr
         exact inv_trimSequences n fs b h r hr
   | autoAlpha => exact h.congr rfl rfl rfl
+  | revcomp => exact inv_reverseComplement b h
 
 /-- **Every reachable state satisfies the invariant**: induction over histories of any length, from
 any state satisfying it (in particular from the empty containers). -/
@@ -341,6 +342,7 @@ theorem step_rect (b : Bag) (h : Rect b) (op : Op) (hw : RectOK b op) : Rect (st
       · rename_i r hr
         exact rect_trimSequences n fs h r hr
   | autoAlpha => exact h.congr rfl rfl rfl
+  | revcomp => exact rect_reverseComplement h
 
 /-- **Every reachable alignment is rectangular**: induction over histories of any length. -/
 theorem run_rect (ops : List Op) (b : Bag) (h : Rect b) (hw : HistRectOK b ops) : Rect (finalState b ops) := by
@@ -431,10 +433,10 @@ def OpWFR (b : Bag) : Op → Prop
   | .sample _ perm => IsPerm perm b.rows.length
   | _ => True
 
-/-- **One step refines the reference model** — every one of the 24 operations of the history
+/-- **One step refines the reference model** — every one of the 25 operations of the history
 language (`add`, `ignore`, `clear`, `append`, `concat`, `rename`, `appendId`, `cleanNames`, `trimNames`,
 `trimAuto`, `sort`, `permute`, `filter`, `dedup`, `rmSeqs`, `translate`, `clone`, `sample`, `toUpper`,
-`toLower`, `replace`, `setChar`, `trimSeqs`, `autoAlpha`), arbitrary arguments: whenever the reference
+`toLower`, `replace`, `setChar`, `trimSeqs`, `autoAlpha`, `revcomp`), arbitrary arguments: whenever the reference
 specifies the outcome of the operation on the observable content, the Go-shaped model yields exactly
 that content (names, row order, residues, policy, alphabet, kind) and that status, and the strong
 invariant holds again. -/
@@ -467,6 +469,7 @@ theorem step_refines (b : Bag) (h : Good b) (op : Op) (hw : OpWFR b op)
     | setChar i j c => exact ref_setChar h i j c
     | trimSeqs n fs => exact ref_trimSeqs h n fs
     | autoAlpha => exact ref_autoAlpha h
+    | revcomp => exact ref_revcomp h
   exact this s' st hs
 
 /-- the reference model run over a history: final content and the status of every step; `none` as
